@@ -166,9 +166,10 @@ CHECKS['C22'] = _stack('Seeded search over connect requests with valid and inval
 CHECKS['C23'] = _stack('Seeded search over the peripheral_latency option sets with application data, central data, MD bursts, CRC errors, lost events and radio disarm success/refusal: the peripheral never skips more than the latency, '
                        'listens when a configured condition held, and event counter and channel stay in step with the number of elapsed intervals, including events pulled back by pending data. A second harness (pdu_sim, configurations '
                        'with the real nRF52 radio front end) judges what the radio reports about every completed connection event - the listen conditions last_received_not_empty, last_received_had_more_data, '
-                       'last_transmitted_not_empty, unacknowledged_data that plan_next_connection_event() acts on - against the PDUs that were exchanged.', _ST + 'attended events vs. listen conditions')
-CHECKS['C23']['harnesses'] = [_STACK, _PDU]
-CHECKS['C23']['level_note'] = CHECKS['C23']['level_note'] + '; pdu_sim: the Hardware below nrf52.hpp is a stub (harness/nrf_front.hpp), the link layer above it is the op stream of the harness'
+                       'last_transmitted_not_empty, unacknowledged_data that plan_next_connection_event() acts on - against the PDUs that were exchanged. A third harness (lat_sim) drives peripheral_latency_state directly with every sequence of '
+                       'event outcomes, pending instants, timeouts, pending data with a permitting or refusing radio and pinned events (the link layer pins every event planned for an instant, so it cannot produce them all).', _ST + 'attended events vs. listen conditions')
+CHECKS['C23']['harnesses'] = [_STACK, _PDU, {'harness': 'lat_sim', 'binary': 'lat_sim'}]
+CHECKS['C23']['level_note'] = CHECKS['C23']['level_note'] + '; pdu_sim: the Hardware below nrf52.hpp is a stub (harness/nrf_front.hpp), the link layer above it is the op stream of the harness; lat_sim: link layer and radio are the op stream, the oracle is a set of constraints (distance 1..latency+1, 1 after a listen condition, not behind an instant, pull back into the future and not later than planned, counter / channel index / time in step)'
 CHECKS['C24'] = _stack('Seeded search over advertising with fixed and run-time changed channel maps, start/stop/count controls, scan requests, connects and disconnects in between: every advertising event uses each enabled channel '
                        'once in ascending order and no disabled one, events are interval + 0..10 ms apart, nothing is sent while stopped or beyond the count.', _ST + 'advertising PDUs on the air')
 CHECKS['C25'] = _stack('Seeded search over scan and connect requests with right/wrong advertiser address, address type, length, initiators inside/outside the white list and filter switches between any two PDUs, for undirected and directed '
